@@ -356,7 +356,7 @@ pub fn subchecks(tier: Tier) -> Vec<SubCheck> {
     let wt_seed = move || -> u64 {
         std::env::var("VERIF_SEED").ok().and_then(|s| s.trim().parse::<i128>().ok()).map(|v| v as u64).unwrap_or(0) ^ 0xC13
     };
-    let cases = tier.pick(200_000, 3_000_000);
+    let cases = tier.pick(200_000, 1_000_000);
     let rule = "total size on / around every border 192*2^n (n = 0..30, delta -2..2), around 96 GiB and 192 GiB (limit, limit +- k), 4095/4096/4097, small and log-uniform sizes; content = one or two word programs aimed at the levels around the initial index (incl. level-30 words) embedded in zero bytes fed through the hook, split before/between the programs, size declared before / after / not at all; oracle = reference models A and B with closed-form zero runs; non-trivial = size > 2^24 with >= 32 pieces at the selected level, or a size above the limit; distinct by case";
     let main = SubCheck {
         name: "sizes_vs_models",
